@@ -306,8 +306,9 @@ NonIdleD(c0, cfg, pkt) ==
   LET A(c) == AdvanceD(c, cfg)
       \* CFDP 4.7.2: every EOF PDU received is acknowledged, also one re-sent after the EOF was accepted (its ACK was lost)
       A2(c) == IF pkt.t = "EOF" /\ ModeD(c) = "ACK"
-                  /\ c.h.step \in {"WAITING_FOR_MISSING_DATA", "TRANSFER_COMPLETION", "SENDING_FINISHED_PDU", "WAITING_FOR_FINISHED_ACK"}
-               THEN EmitD(c, MkAckEof(c)) ELSE c
+                  /\ c.h.step \in {"WAITING_FOR_MISSING_DATA", "WAITING_FOR_FINISHED_ACK"}
+               THEN [EmitD(c, MkAckEof(c)) EXCEPT !.stop = TRUE]     \* "return": the step's procedures continue with the next call
+               ELSE c
       B(c) == IF c.h.step \in {"RECEIVING_FILE_DATA", "RECV_FILE_DATA_WITH_CHECK_LIMIT_HANDLING"} /\ pkt.t # "none" THEN
                  (IF pkt.t = "FD" THEN HandleFd(c, cfg, pkt) ELSE IF pkt.t = "EOF" THEN HandleEof(c, cfg, pkt) ELSE c)
               ELSE c
